@@ -813,3 +813,61 @@ Example example_two_point_lemma :
   grid_ok Times4Pi 1 2 0 1 ((0%bigZ, 0%bigZ, 1%bigZ) :: (0%bigZ, 0%bigZ, (-1)%bigZ) :: nil) (1%bigZ :: nil) = true /\
   grid_bad_lm Times4Pi 2 0 1 2 0 false ((0%bigZ, 0%bigZ, 1%bigZ) :: (0%bigZ, 0%bigZ, (-1)%bigZ) :: nil) (1%bigZ :: nil) = true.
 Proof. split; vm_compute; reflexivity. Qed.
+
+(* ================================================================== evaluation of Ylm at rational points
+   (used by the harness to validate the definition of Ylm against the library's own real spherical
+   harmonics, grid.utils.generate_real_spherical_harmonics, with the interval tactic) *)
+Lemma cnorm_sqrt l m : cnorm l m = sqrt (IZR (kappa_num l m) / (IZR (kappa_den l m) * PI)).
+Proof.
+  rewrite <- cnorm_sq. symmetry. apply sqrt_square. apply cnorm_nonneg.
+Qed.
+
+(* the integer harmonic at an integer point (X, Y, Z) with denominator D *)
+Definition Hz (l m : nat) (neg : bool) (X Y Zc D : Z) : Z :=
+  ((if neg then snd (cs_pow ZOps m X Y) else fst (cs_pow ZOps m X Y)) *
+   fst (u_pair ZOps (l - m) (Z.of_nat m) Zc (D * D)))%Z.
+
+Lemma IZR_0' : IZR (o0 ZOps) = o0 ROps. Proof. reflexivity. Qed.
+Lemma IZR_1' : IZR (o1 ZOps) = o1 ROps. Proof. reflexivity. Qed.
+Lemma IZR_add' x y : IZR (oadd ZOps x y) = oadd ROps (IZR x) (IZR y). Proof. apply plus_IZR. Qed.
+Lemma IZR_sub' x y : IZR (osub ZOps x y) = osub ROps (IZR x) (IZR y). Proof. apply minus_IZR. Qed.
+Lemma IZR_mul' x y : IZR (omul ZOps x y) = omul ROps (IZR x) (IZR y). Proof. apply mult_IZR. Qed.
+Lemma IZR_Z' z : IZR (oZ ZOps z) = oZ ROps z. Proof. reflexivity. Qed.
+
+Theorem Ylm_rational_lemma l m neg X Y Zc D : (m <= l)%nat -> (neg = true -> (1 <= m)%nat) -> (0 < D)%Z ->
+  Ylm l (signed m neg) (IZR X / IZR D) (IZR Y / IZR D) (IZR Zc / IZR D) =
+  sqrt (IZR (kappa_num l m) / (IZR (kappa_den l m) * PI)) * (IZR (Hz l m neg X Y Zc D) / IZR D ^ l).
+Proof.
+  intros Hml Hneg HD. assert (Dp : 0 < IZR D) by (apply IZR_lt; exact HD).
+  assert (Ea : Z.abs_nat (signed m neg) = m) by (unfold signed; destruct neg; lia).
+  assert (En : (signed m neg <? 0)%Z = neg).
+  { unfold signed. destruct neg; [specialize (Hneg eq_refl); apply Z.ltb_lt; lia|apply Z.ltb_ge; lia]. }
+  unfold Ylm. rewrite Ea, En. rewrite <- cnorm_sqrt. unfold cnorm.
+  pose proof (LQ_Uq (l - m) m (IZR Zc / IZR D)) as E. replace (m + (l - m))%nat with l in E by lia.
+  pose proof (fact_pos (l - m)) as F.
+  assert (E' : LQ l m (IZR Zc / IZR D) = dfact_odd m * fst (Uq (l - m) m (IZR Zc / IZR D)) / INR (fact (l - m))).
+  { rewrite <- E. field. lra. }
+  rewrite E', <- u_pair_Uq.
+  unfold Hz.
+  pose proof (m_cs_pow ZOps ROps IZR IZR_0' IZR_1' IZR_add' IZR_sub' IZR_mul' m X Y) as Ecs.
+  pose proof (m_u_pair ZOps ROps IZR IZR_0' IZR_1' IZR_sub' IZR_mul' IZR_Z' (l - m) (Z.of_nat m) Zc (D * D)%Z) as Eu.
+  rewrite mult_IZR in Eu.
+  set (x := IZR X / IZR D). set (y := IZR Y / IZR D). set (z := IZR Zc / IZR D).
+  replace (IZR X) with (IZR D * x) in Ecs by (unfold x; field; lra).
+  replace (IZR Y) with (IZR D * y) in Ecs by (unfold y; field; lra).
+  replace (IZR Zc) with (IZR D * z) in Eu by (unfold z; field; lra).
+  replace (IZR D * IZR D) with (IZR D * IZR D * 1) in Eu by ring.
+  rewrite cs_hom in Ecs. destruct (u_hom (IZR D) z 1 (Z.of_nat m) (l - m)) as [H1 _].
+  assert (Ef : IZR (fst (u_pair ZOps (l - m) (Z.of_nat m) Zc (D * D)%Z)) = IZR D ^ (l - m) * fst (u_pair ROps (l - m) (Z.of_nat m) z 1)).
+  { rewrite <- H1. rewrite <- Eu. reflexivity. }
+  clear Eu.
+  assert (Ec : IZR (fst (cs_pow ZOps m X Y)) = IZR D ^ m * fst (cs_pow ROps m x y))
+    by (change (IZR (fst (cs_pow ZOps m X Y))) with (fst (pmap IZR (cs_pow ZOps m X Y))); now rewrite Ecs).
+  assert (Es : IZR (snd (cs_pow ZOps m X Y)) = IZR D ^ m * snd (cs_pow ROps m x y))
+    by (change (IZR (snd (cs_pow ZOps m X Y))) with (snd (pmap IZR (cs_pow ZOps m X Y))); now rewrite Ecs).
+  rewrite mult_IZR, Ef.
+  replace (IZR D ^ l) with (IZR D ^ m * IZR D ^ (l - m)) by (rewrite <- pow_add; f_equal; lia).
+  assert (P1 : IZR D ^ m <> 0) by (apply pow_nonzero; lra).
+  assert (P2 : IZR D ^ (l - m) <> 0) by (apply pow_nonzero; lra).
+  unfold pick. destruct neg; [rewrite Es|rewrite Ec]; field; repeat split; lra.
+Qed.
